@@ -180,14 +180,21 @@ def search_one(ck, net, cfg, seed, how=""):
     g = tgen(seed, "x", F, cfg["H"], cfg["B"])
     x = torch.randn(3, F, generator=g)
     ctx = torch.randn(3, cfg["ctx"], generator=g) if cfg["ctx"] else None
-    for mode in ("eval", "train"):
-        net.train(mode == "train")
+    for mode in ("eval", "train", "train, a single row"):
+        net.train(mode != "eval")
+        if mode.endswith("single row"):
+            # batch norm in training mode needs more than one row; whatever a network returns for a single row (if it accepts
+            # it at all) has to be autoregressive too
+            x, ctx = x[:1], (None if ctx is None else ctx[:1])
         torch.manual_seed(12345)
         with torch.no_grad():
-            base = net(x, ctx)
+            b0 = attempt(net, x, ctx)
+        if b0[0] != "ok":
+            continue
+        base = b0[1]
         for j in range(F):
             x2 = x.clone()
-            x2[:, j] += torch.tensor([1.0, -2.5, 0.75])
+            x2[:, j] += torch.tensor([1.0, -2.5, 0.75])[:x.shape[0]]
             torch.manual_seed(12345)  # same dropout mask
             with torch.no_grad():
                 out = net(x2, ctx)
